@@ -20,6 +20,7 @@ from harness.tlaparse import iter_dump_states
 MC_CFG = """SPECIFICATION %(spec)s
 CONSTANTS
   IgnorePatterns <- DataIgnorePatterns
+  EaExts <- DataEaExts
   SkipUnservable = %(skip)s
   SortedEnum = TRUE
   DotRuleAll = TRUE
@@ -118,7 +119,7 @@ def selftest(traces):
         b["events"].append({"ev": "response", "status": "notfound", "listing": [], "culprit": ""})
         c = json.loads(json.dumps({"id": t["id"] + "#dup-enum", "init": t["init"], "events": [t["events"][0]] + t["events"]}))
         bad += [a, b, c]
-    tv = tlc.validate_traces("TraceC12", "TraceC12.cfg", bad)
+    tv = dl.validate_parallel("TraceC12", "TraceC12.cfg", bad)
     clauses = sorted({r["clause"] for r in tv["rejected"]})
     if tv["accepted"] != 0:
         raise core.MachineryError("C12 selftest: TraceC12 accepted %d corrupted traces" % tv["accepted"])
@@ -178,7 +179,7 @@ def main(chk, replay=None):
         if missing:
             raise core.MachineryError("C12: demanded faults never fired: %s" % missing)
     # 4. TLC judges every trace
-    tv = tlc.validate_traces("TraceC12", "TraceC12.cfg",
+    tv = dl.validate_parallel("TraceC12", "TraceC12.cfg",
                              [{"id": tr["id"], "init": tr["init"], "events": tr["events"]} for tr in traces], extra_files=extra)
     for rj in tv["rejected"]:
         tr = traces[rj["index"]]
